@@ -52,3 +52,62 @@ VX void verif_ecdsa_sig_load(const secp256k1_context *ctx, unsigned char *r32, u
     secp256k1_scalar_get_b32(r32, &r);
     secp256k1_scalar_get_b32(s32, &s);
 }
+
+/* per-property wrapper files (created as needed) */
+#if __has_include("wrap_c02.h")
+#include "wrap_c02.h"
+#endif
+#if __has_include("wrap_c03.h")
+#include "wrap_c03.h"
+#endif
+#if __has_include("wrap_c04.h")
+#include "wrap_c04.h"
+#endif
+#if __has_include("wrap_c05.h")
+#include "wrap_c05.h"
+#endif
+#if __has_include("wrap_c06.h")
+#include "wrap_c06.h"
+#endif
+#if __has_include("wrap_c07.h")
+#include "wrap_c07.h"
+#endif
+#if __has_include("wrap_c08.h")
+#include "wrap_c08.h"
+#endif
+#if __has_include("wrap_c09.h")
+#include "wrap_c09.h"
+#endif
+#if __has_include("wrap_c10.h")
+#include "wrap_c10.h"
+#endif
+#if __has_include("wrap_c11.h")
+#include "wrap_c11.h"
+#endif
+#if __has_include("wrap_c12.h")
+#include "wrap_c12.h"
+#endif
+#if __has_include("wrap_c13.h")
+#include "wrap_c13.h"
+#endif
+#if __has_include("wrap_c14.h")
+#include "wrap_c14.h"
+#endif
+#if __has_include("wrap_c15.h")
+#include "wrap_c15.h"
+#endif
+#if __has_include("wrap_c16.h")
+#include "wrap_c16.h"
+#endif
+#if __has_include("wrap_c17.h")
+#include "wrap_c17.h"
+#endif
+#if __has_include("wrap_c18.h")
+#include "wrap_c18.h"
+#endif
+#if __has_include("wrap_c19.h")
+#include "wrap_c19.h"
+#endif
+#if __has_include("wrap_c20.h")
+#include "wrap_c20.h"
+#endif
